@@ -941,6 +941,44 @@ var scMuts = []scMut{
 		}
 		return false
 	}},
+	{"directive-null-for-required-arg", func(r *rand.Rand, items []scItem) bool {
+		// a non-null argument without default, and a use that writes null for it
+		d := scPick(r, items, func(it *scItem) bool { return it.K == kDirective && len(it.Locs) > 0 })
+		if d == nil {
+			return false
+		}
+		for _, a := range d.Inputs {
+			if a.T.K == 2 && a.Def == nil {
+				return false
+			}
+		}
+		n := 700 + r.Intn(50)
+		for i := range items {
+			it := &items[i]
+			loc := map[int]int{kScalar: 8, kObject: 9, kInterface: 12, kUnion: 13, kEnum: 14, kInput: 16}[it.K]
+			for _, l := range d.Locs {
+				if l == loc && it.K != kDirective && it.K != kSchema {
+					for _, u := range it.Dirs {
+						if u.N == d.N {
+							return false
+						}
+					}
+					d.Inputs = append(d.Inputs, scArg{N: n, T: scT{K: 2, Of: &scT{N: 0}}})
+					// every other use gives the new argument a value
+					for j := range items {
+						for k := range items[j].Dirs {
+							if items[j].Dirs[k].N == d.N {
+								items[j].Dirs[k].Args = append(items[j].Dirs[k].Args, scAV{N: n, V: scV{K: "i", I: 1}})
+							}
+						}
+					}
+					it.Dirs = append(it.Dirs, scDU{N: d.N, Args: []scAV{{N: n, V: scV{K: "null"}}}})
+					return true
+				}
+			}
+		}
+		return false
+	}},
 	{"directive-bad-default", func(r *rand.Rand, items []scItem) bool {
 		d := scPick(r, items, func(it *scItem) bool { return it.K == kDirective })
 		if d == nil {
@@ -1523,6 +1561,14 @@ func c14Gen(r *rand.Rand, tier string) []Case {
 			for _, it := range d {
 				if it.Ext && len(it.Fields) == 1 && it.Fields[0].N >= 660 && it.Fields[0].N < 700 && it.K == kObject && r.Intn(2) == 0 {
 					push("ok", []scItem{{Ext: true, K: it.K, N: it.N, Fields: []scField{it.Fields[0]}}}, "load-after-refused-extension")
+					goto added
+				}
+				if it.Ext && it.K == kEnum && len(it.Vals) >= 1 && it.Vals[0].N >= 660 && it.Vals[0].N < 700 && r.Intn(3) != 0 {
+					push("ok", []scItem{{Ext: true, K: it.K, N: it.N, Vals: []scEV{it.Vals[0]}}}, "load-after-refused-extension")
+					goto added
+				}
+				if it.Ext && it.K == kInput && len(it.Inputs) >= 1 && it.Inputs[0].N >= 660 && it.Inputs[0].N < 700 && r.Intn(3) != 0 {
+					push("ok", []scItem{{Ext: true, K: it.K, N: it.N, Inputs: []scArg{it.Inputs[0]}}}, "load-after-refused-extension")
 					goto added
 				}
 			}
